@@ -281,6 +281,12 @@ var replayers = map[string]func(r *common.Replay, path string) int{}
 // engine is another one (C10, C11, C14): violations of prop are added to rep,
 // the counters are returned for the evidence file.
 func runClusterPlans(prop string, plans []plan, rep *common.Report, reported map[string]bool) (map[string]any, bool, int) {
+	return runClusterPlansAlso(prop, plans, rep, reported, nil)
+}
+
+// runClusterPlansAlso reports violations of the properties in also under prop
+// (signature prefixed with their id), as clusterCheckAlso does.
+func runClusterPlansAlso(prop string, plans []plan, rep *common.Report, reported map[string]bool, also []string) (map[string]any, bool, int) {
 	var states, transitions, execs uint64
 	exhaustive := true
 	var per []map[string]any
@@ -291,10 +297,18 @@ func runClusterPlans(prop string, plans []plan, rep *common.Report, reported map
 			fmt.Println("INFRA: unknown suite", pl.suite)
 			return nil, false, 2
 		}
-		res, err := explore.RunSuite(s, explore.Options{Deadline: time.Now().Add(time.Duration(pl.secs) * time.Second), Props: []string{prop}})
+		res, err := explore.RunSuite(s, explore.Options{Deadline: time.Now().Add(time.Duration(pl.secs) * time.Second), Props: append([]string{prop}, also...)})
 		if err != nil {
 			fmt.Println("INFRA:", err)
 			return nil, false, 2
+		}
+		for _, f := range res.Founds {
+			for _, a := range also {
+				if f.V.Property == a {
+					f.V.Signature = a + "/" + f.V.Signature
+					f.V.Property = prop
+				}
+			}
 		}
 		states += res.Distinct
 		transitions += res.Stats.Transitions
